@@ -618,6 +618,9 @@ func genCases(seed uint64, thorough bool) []Case {
 	}
 	for i := range cs {
 		cs[i].I = i
+		// every other case is built with AlwaysRebuild: only the per-build
+		// memo then keeps a rule from executing twice
+		cs[i].Always = i%2 == 1
 	}
 	return cs
 }
